@@ -194,7 +194,7 @@ def run(case):
         if not np.array_equal(s.positions, b):
             R.fail("snapshot positions modified", sig=dict(sig, clause="input_modified"))
     cols = ref[0]
-    if not set(cols) <= set(res.columns):
+    if populated < 0:
         return R
     R.outcome({c: res[c].values for c in cols}, nd=7)
     R.nontrivial = populated >= 2 * len(cols) or (populated >= 2 and len(types) <= 4)
@@ -258,6 +258,239 @@ def compare(R, res, ref, sig, types0, out=None):
     return populated
 
 
+# ------------------------------------------------------------------------------ slice D: scale
+SCALE_N = {"quick": [64, 65, 257, 600], "thorough": [64, 65, 130, 257, 600]}
+SCALE_CELLS = ["orthp", "trip", "tri-"]        # shortest edge is y; the same with tilts; x shortest with negative tilts
+SCALE_W = [2.0, 0.27, 0.031, 0.0155]           # 2 / 14 / 129 / 258 bins for L_min = 8
+SCALE_MASK = {2: [[1, 0], [0, 1]], 3: [[1, 0, 1], [0, 1, 1], [1, 1, 0]]}
+TILT_FAC = [1.0, -1.0, 0.5]
+
+
+def scale_variant(d, iN, n, K, F, v):
+    """the fixed value pattern that goes with one (dimension, size, species count, frame count); v = 0 / 1 are two
+    complementary patterns (thorough runs both).  Every feature rotates with its own combination of the indices so that the
+    features are not tied to each other; the dense regime (width 2.0, all directions periodic) is forced for N = 600
+    (2D: single frame - one bin > 65 535 pairs and > 255 partners per particle; 3D: three frames - bin total > 65 535)."""
+    iF = F // 2
+    dense = n == 600 and v == 0 and ((d == 2 and F == 1) or (d == 3 and F == 3))
+    if dense:
+        w = 2.0
+    elif n == 600:
+        w = [0.27, 0.031][(K + iF + v) % 2]
+    else:
+        w = SCALE_W[(2 * iN + K + 3 * iF + 2 * v + d) % 4]
+    masked = (not dense) and (iN + K + v) % 2 == 1
+    return {
+        "cell": SCALE_CELLS[(iN + K + iF + d + v) % 3],
+        "w": w,
+        "ppp": SCALE_MASK[d][(K + iF) % len(SCALE_MASK[d])] if masked else [1] * d,
+        "comp": "single" if (iN + d + v + K // 2 + iF) % 2 == 0 else "skew",
+        "csv": (K + d + iF + v) % 2 == 0,
+        "pppform": ["array", "list", "tuple"][(K + 2 * iN + iF + v) % 3],
+        "order": "F" if (iN + 2 * K + iF + d + v) % 4 == 1 else "C",
+    }
+
+
+def gen_scale(tier, seed):
+    for d in (2, 3):
+        for iN, n in enumerate(SCALE_N[tier]):
+            for K in (1, 2, 3, 4, 5):
+                for F in (1, 3):
+                    for v in ((0,) if tier == "quick" else (0, 1)):
+                        if n == 600 and F == 3 and (v == 1 or (tier == "quick" and (K in (2, 4) or d == 2))):
+                            continue  # cost: the largest size with three frames once per K (quick: 3D, K = 1, 3, 5; the precision cases below cover the rest)
+                        o = scale_variant(d, iN, n, K, F, v)
+                        yield dict({"slice": "scale", "d": d, "n": n, "K": K, "F": F, "seed": seed, "variant": v}, **o)
+    # precision regime: the finest width with the most pairs (N = 600, three frames, 975 bins: > 10^5 pairs within L_min/2, so
+    # a relative error of 1e-7 in a distance moves several pairs across a bin edge) - once per species count
+    for K in (1, 2, 3, 4, 5):
+        for d in (2, 3):
+            if tier == "quick" and d != (2 if K % 2 else 3):
+                continue
+            yield {"slice": "scale", "d": d, "n": 600, "K": K, "F": 3, "seed": seed, "variant": 2, "cell": SCALE_CELLS[(K + d) % 3], "w": 0.0041,
+                   "ppp": [1] * d, "comp": "skew" if K % 2 else "single", "csv": False, "pppform": "array", "order": "C"}
+
+
+def scale_input(case):
+    """frames (positions inside each frame's own cell), one cell and one species array per frame; None if some point set
+    could not be drawn without a minimum-image tie"""
+    d, n, K, F = case["d"], case["n"], case["K"], case["F"]
+    H0 = cell_for(d, case["cell"])
+    D = np.diag(np.diag(H0))
+    Hs = [D + (H0 - D) * TILT_FAC[f] for f in range(F)]  # tilts change from frame to frame, edge lengths do not
+    t0 = np.array(X.composition(n, K, case["comp"]))
+    ts = [np.roll(t0, 17 * f) for f in range(F)]  # same composition, other assignment to the ids
+    ppp = np.array(case["ppp"])
+    frames = []
+    redraw = 0
+    for f in range(F):
+        for t in range(30):
+            pos = X.frac_points(case["seed"], n, d, tag=f"c03s{d}_{n}_{f}_{t}_") @ Hs[f]
+            if X.pairs(pos, Hs[f], ppp)[3] >= X.TIE_TOL:
+                break
+            redraw += 1
+        else:
+            return None
+        frames.append(pos)
+    return frames, Hs, ts, redraw
+
+
+def run_scale(case):
+    from PyMatterSim.static.gr import gr
+
+    R = Result()
+    inp = scale_input(case)
+    if inp is None:
+        return R.screen()
+    frames, Hs, ts, _ = inp
+    d, n, K, F, w = case["d"], case["n"], case["K"], case["F"], case["w"]
+    pl = case["ppp"]
+    ppp = {"array": np.array(pl), "list": list(pl), "tuple": tuple(pl)}[case["pppform"]]
+    sig = {"slice": "scale", "K": K, "d": d, "cell": case["cell"], "F": F, "masked": 0 in pl, "n": n, "w": w}
+    ref = X.ref_gr_vec(frames, Hs, ts, np.array(pl), w)
+    info = ref[5]
+    given = [np.asfortranarray(f) if case["order"] == "F" else np.ascontiguousarray(f) for f in frames]
+    snaps = mk_snaps(given, np.array(Hs), ts)
+    before = [s.positions.copy() for s in snaps.snapshots]
+    out = "gr_scale.csv" if case["csv"] else None
+    if out and os.path.exists(out):
+        os.remove(out)
+    res = gr(snaps, ppp=ppp, rdelta=w, outputfile=out).getresults()
+    populated = compare(R, res, ref, sig, ts[0], out)
+    for s, b, t in zip(snaps.snapshots, before, ts):
+        if not np.array_equal(s.positions, b) or not np.array_equal(s.particle_type, t):
+            R.fail("snapshot positions / species modified", sig=dict(sig, clause="input_modified"))
+    if populated < 0:
+        return R
+    cols = ref[0]
+    R.outcome({c: res[c].values for c in cols}, nd=7)
+    lonely = 0 if K == 1 else int(sum(1 for a in set(ts[0].tolist()) if (ts[0] == a).sum() == 1))
+    npop = sum(1 for c in cols if (ref[3][c] > 0).sum() >= 1)
+    R.nontrivial = bool((ref[3]["gr"] > 0).sum() >= 2 and npop >= len(cols) - lonely)
+    R.elem = len(cols) * len(ref[1])
+    R.notes = {"max_bin_total": info["max_bin_total"], "max_partner_count": info["max_partner_count"], "edge_pairs": info["edge_pairs"]}
+    return R
+
+
+# --------------------------------------------------------------------- slice E: call sequences
+# letters: small inputs that share some derived quantities and differ in others (number of bins, width, volume, dimension,
+# h-matrix, composition, mask), so that state keyed by an incomplete subset of them is served to the wrong call
+SEQ_LETTERS = [
+    {"id": "a", "d": 3, "L": [8.0, 9.0, 10.0], "tilt": None, "w": 0.5, "K": 2, "ppp": [1, 1, 1], "F": 1},    # 8 bins
+    {"id": "b", "d": 3, "L": [4.0, 4.5, 5.5], "tilt": None, "w": 0.25, "K": 2, "ppp": [1, 1, 1], "F": 1},   # 8 bins, other width and volume
+    {"id": "c", "d": 3, "L": [8.0, 9.0, 10.0], "tilt": None, "w": 0.25, "K": 2, "ppp": [1, 1, 1], "F": 1},  # same cell, 16 bins
+    {"id": "d", "d": 2, "L": [8.0, 9.0], "tilt": None, "w": 0.5, "K": 2, "ppp": [1, 1], "F": 1},            # 8 bins of the same width in 2D
+    {"id": "e", "d": 3, "L": [8.0, 9.0, 10.0], "tilt": [1.5, 1.0, -2.0], "w": 0.5, "K": 2, "ppp": [1, 1, 1], "F": 2},  # same edges, tilted, 2 frames
+    {"id": "f", "d": 3, "L": [8.0, 9.0, 10.0], "tilt": None, "w": 0.5, "K": 3, "ppp": [1, 1, 1], "F": 1},   # as 'a' with three species
+    {"id": "g", "d": 2, "L": [10.0, 8.0], "tilt": None, "w": 0.5, "K": 1, "ppp": [1, 0], "F": 1},           # mask, one species
+    {"id": "h", "d": 3, "L": [9.0, 8.0, 10.0], "tilt": None, "w": 0.01, "K": 1, "ppp": [1, 1, 1], "F": 1, "defaults": True},  # gr(snapshots): default ppp and rdelta
+]
+SEQ_MODES = ["serial", "reuse", "ahead"]
+SEQ_NP = 8
+SEQ_MODS = ("PyMatterSim.utils.funcs", "PyMatterSim.utils.pbc", "PyMatterSim.static.gr")  # everything gr() runs through
+
+
+def seq_input(seed, lt):
+    d, F = lt["d"], lt["F"]
+    H0 = A.hmat_tri(lt["L"], lt["tilt"] if lt["tilt"] else ([0] if d == 2 else [0, 0, 0]))
+    D = np.diag(np.diag(H0))
+    Hs = [D + (H0 - D) * TILT_FAC[f] for f in range(F)]
+    t0 = np.array([1 + (i % lt["K"]) for i in range(SEQ_NP)])
+    ts = [np.roll(t0, f) for f in range(F)]
+    frames = [X.frac_points(seed, SEQ_NP, d, tag=f"c03q{lt['id']}{f}_") @ Hs[f] for f in range(F)]
+    return frames, Hs, ts
+
+
+def gen_sequence(tier, seed):
+    depth = 2 if tier == "quick" else 3
+    nl = len(SEQ_LETTERS)
+    for L in range(1, depth + 1):
+        for word in itertools.product(range(nl), repeat=L):
+            for mode in SEQ_MODES:
+                if L == 1 and mode != "serial":
+                    continue
+                if mode == "reuse" and len(set(word)) == L:
+                    continue  # without a repeated letter 'reuse' is 'serial'
+                yield {"slice": "sequence", "word": list(word), "mode": mode, "seed": seed}
+
+
+def _seq_eval(case):
+    """runs in the child: the calls of the word in order; objects stay alive until the end of the word"""
+    from PyMatterSim.static.gr import gr
+
+    def make(k):
+        lt = SEQ_LETTERS[k]
+        frames, Hs, ts = seq_input(case["seed"], lt)
+        if lt.get("defaults"):  # the documented defaults ppp = [1, 1, 1], rdelta = 0.01 (default-argument objects are shared state)
+            return gr(mk_snaps(frames, np.array(Hs), ts))
+        return gr(mk_snaps(frames, np.array(Hs), ts), ppp=np.array(lt["ppp"]), rdelta=lt["w"])
+
+    word, mode = case["word"], case["mode"]
+    out, alive = [], []
+    if mode == "serial":          # a new object per call, the earlier ones still alive
+        for k in word:
+            alive.append(make(k))
+            out.append(X.frame_to_json(alive[-1].getresults()))
+    elif mode == "reuse":         # one object per letter: a repeated letter is a second getresults() on the same object
+        objs = {}
+        for k in word:
+            if k not in objs:
+                objs[k] = make(k)
+            out.append(X.frame_to_json(objs[k].getresults()))
+    else:                         # all objects constructed first, then evaluated in order
+        alive = [make(k) for k in word]
+        out = [X.frame_to_json(o.getresults()) for o in alive]
+    return out
+
+
+_FRESH = {}
+
+
+def run_sequence(case):
+    import pandas as pd
+
+    R = Result()
+    seed = case["seed"]
+    feat = {"slice": "sequence", "mode": case["mode"]}
+    payload = X.fresh_child(_seq_eval, case, SEQ_MODS)
+    if "err" in payload:
+        R.fail(f"call sequence {[SEQ_LETTERS[k]['id'] for k in case['word']]} ({case['mode']}) raised {payload['err']}", sig=dict(feat, exception=True))
+        return R
+    states = set()
+    for pos, (k, got) in enumerate(zip(case["word"], payload["ok"])):
+        lt = SEQ_LETTERS[k]
+        key = (seed, k)
+        if key not in _FRESH:
+            frames, Hs, ts = seq_input(seed, lt)
+            one = X.fresh_child(_seq_eval, {"word": [k], "mode": "serial", "seed": seed}, SEQ_MODS)
+            _FRESH[key] = (ref_gr(frames, np.array(Hs), ts, np.array(lt["ppp"]), lt["w"]), one.get("ok", [None])[0], ts[0])
+        ref, fresh, t0 = _FRESH[key]
+        where = "first" if pos == 0 else "later"
+        prev = [SEQ_LETTERS[j]["id"] for j in case["word"][:pos]]
+        sig = dict(feat, K=lt["K"], d=lt["d"], position=where)
+        res = pd.DataFrame(got["values"], columns=got["columns"])
+        n0 = len(R.viol)
+        compare(R, res, ref, sig, t0)
+        if fresh is not None and (got["columns"] != fresh["columns"] or not np.array_equal(np.array(got["values"]), np.array(fresh["values"]), equal_nan=True)):
+            R.fail(f"gr letter '{lt['id']}' after {prev} ({case['mode']}) differs from the same call made first in a fresh state",
+                   sig=dict(sig, clause="history"))
+        if len(R.viol) > n0:
+            break
+        states.add((k, json_digest(got)))
+    R.elem = sum(len(g["values"]) * len(g["columns"]) for g in payload["ok"])
+    R.states = len(states)
+    R.transitions = len(case["word"])
+    R.outcome([g["values"] for g in payload["ok"]], nd=7)
+    return R
+
+
+def json_digest(obj):
+    import hashlib
+    import json
+
+    return hashlib.sha1(json.dumps(obj, sort_keys=True).encode()).hexdigest()[:16]
+
+
 def subs(tier, seed):
     return [
         Sub("C03.routing", gen_routing, run,
@@ -272,4 +505,22 @@ def subs(tier, seed):
                  + (" + all 2-,3-subsets of a jittered 3^d lattice (default options)" if tier == "thorough" else ""),
             bounds={"max_deviations": None if tier == "thorough" else 2}),
         Sub("C03.csv", gen_csv, run, rule="K=1..6, 2D/3D, two frames, output file parsed back and compared at %.6f"),
+        Sub("C03.scale", gen_scale, run_scale,
+            rule="SIZE slice (enumerates sizes, one fixed value pattern per size): N in " + str(SCALE_N[tier]) + " generic particles x K = 1..5 species "
+                 "(unequal counts; every second pattern has a species with ONE member) x {2D,3D} x frames {1,3}; per case a fixed pattern of "
+                 "cell {y shortest, y shortest + tilts, negative tilts}, width {2.0, 0.27, 0.031, 0.0155} (2..258 bins), mask, ppp as "
+                 "array/list/tuple, C/Fortran-ordered positions, output file" + (" (two complementary patterns per size)" if tier == "thorough" else "")
+                 + "; with three frames the positions, the species attached to the ids and the tilt factors change per frame; "
+                 "N = 600 cases with width 2.0: a bin total > 65 535 pairs and (2D) > 255 partners of one particle in one bin; N = 600, "
+                 "three frames, width 0.0041 once per K: > 10^5 pairs within range on 975 bins (precision regime); "
+                 "EVERY bin of EVERY column against a vectorised pair histogram (interval oracle at bin edges), sum rule, pair partition, CSV; "
+                 "non-trivial = >= 2 populated bins and every column with >= 2-member species populated",
+            bounds={"N": SCALE_N[tier], "K": [1, 5], "frames": [1, 3], "widths": SCALE_W}),
+        Sub("C03.sequence", gen_sequence, run_sequence,
+            rule="explicit-state search over CALL SEQUENCES: all words of length <= " + ("2" if tier == "quick" else "3") + " over "
+                 f"{len(SEQ_LETTERS)} letters (dimension, cell, width, composition, mask) that share some derived quantities (number of bins, "
+                 "edge lengths) and differ in others, in three modes (new object per call with the old ones alive / one object per letter "
+                 "called again / all objects constructed before the first evaluation); every word runs in ONE forked child whose library "
+                 "modules were re-imported; every result must equal the loop reference AND, bit for bit, the same call made first in a fresh state",
+            bounds={"depth": 2 if tier == "quick" else 3, "letters": len(SEQ_LETTERS), "modes": SEQ_MODES}),
     ]
